@@ -446,6 +446,15 @@ DescOfDet(det, loc) ==
 RECURSIVE Flatten(_)
 Flatten(ss) == IF Len(ss) = 0 THEN <<>> ELSE ss[1] \o Flatten(SubSeq(ss, 2, Len(ss)))
 
+\* locations (below loc) of the floats a JSON document cannot hold, inside a value handed to a serde_json::Value target
+RECURSIVE NonFiniteLeaves(_, _)
+NonFiniteLeaves(v, loc) ==
+    CASE v.t = "float" -> IF FiniteBits(v.s) THEN {} ELSE {loc}
+      [] v.t = "seq"   -> UNION {NonFiniteLeaves(v.e[j], Append(loc, IdxStep(j - 1))) : j \in 1..Len(v.e)}
+      [] v.t = "map"   -> UNION {NonFiniteLeaves(v.e[j].v, Append(loc, KeyStep(v.e[j].k))) : j \in 1..Len(v.e)}
+      [] OTHER -> {}
+LeavesAsSeq(S) == LET RECURSIVE f(_) f(T) == IF T = {} THEN <<>> ELSE LET x == CHOOSE y \in T : TRUE IN <<x>> \o f(T \ {x}) IN f(S)
+
 \* fnf: the user-function failures of the run (environment facts): set of [f, loc, j] (j: member index for a field conversion, else 0)
 FnDesc(f, loc) == Desc("fn", loc, f, 0, NullV, {})
 RECURSIVE Faults(_, _, _, _, _)
@@ -454,7 +463,8 @@ Faults(n, val, loc, pk, fnf) ==
         base ==
           CASE cl.ph = "bad"    -> <<DescOfDet(cl.det, cl.eloc)>>
             [] cl.ph = "leafok" -> <<>>
-            [] cl.ph = "jbad"   -> <<Desc("unexpected", loc, "", 0, NullV, {})>>      \* at least one; refined by the monitor
+            [] cl.ph = "jbad"   -> LET ls == LeavesAsSeq(NonFiniteLeaves(val, loc)) IN      \* one report per float that JSON cannot hold
+                                   [j \in 1..Len(ls) |-> Desc("unexpected", ls[j], "", 0, NullV, {})]
             [] cl.ph = "work"   ->
                   LET F == Frame(n, loc, val, NoOb, "E", cl)
                       one(ob) ==
